@@ -67,8 +67,44 @@ func hostGlobals() ugo.Map {
 			return inv.Invoke()
 		}},
 		"hostNameCaller": hostNameCaller{},
+		// panic VALUES that are themselves hostile: an error whose Error() panics (a typed nil pointer in an
+		// error interface), a Stringer whose String() panics, a nil error, runtime.Error, a struct, a slice
+		"hostPanicVal": &ugo.Function{Name: "hostPanicVal", Value: func(args ...ugo.Object) (ugo.Object, error) {
+			k := 0
+			if len(args) > 0 {
+				if i, ok := args[0].(ugo.Int); ok {
+					k = int(i)
+				}
+			}
+			switch k {
+			case 0:
+				var e *badErr
+				panic(error(e))
+			case 1:
+				panic(badStringer{})
+			case 2:
+				var e error
+				panic(e)
+			case 3:
+				var a []int
+				_ = a[k]
+			case 4:
+				panic(struct{ A int }{k}) // (no pointers: their text differs from run to run)
+			default:
+				panic([]string{"a", "b"})
+			}
+			return ugo.Undefined, nil
+		}},
 	}
 }
+
+type badErr struct{ msg string }
+
+func (e *badErr) Error() string { return e.msg } // nil receiver: nil pointer dereference
+
+type badStringer struct{}
+
+func (badStringer) String() string { panic("badStringer.String") }
 
 const knownScript = `
 global log
